@@ -272,7 +272,7 @@ func vDoRequest(h http.Handler, n int, host, path string) {
 
 // wrappers that put the deploy's internal steps on the trace (a stub may call the function it replaces)
 
-//verif:stub (*github.com/basecamp/kamal-proxy/internal/server.Router).installService harness=HarnessDeployGate,HarnessRolloutDeployGate,HarnessRedeployTraffic,HarnessDrainQuiescent,HarnessDrainQuiescentDirected,HarnessPauseHold,HarnessPauseHoldDirected,HarnessNoProbesAfter,HarnessCmdMix
+//verif:stub (*github.com/basecamp/kamal-proxy/internal/server.Router).installService harness=HarnessDeployGate,HarnessRolloutDeployGate,HarnessRedeployTraffic,HarnessDrainQuiescent,HarnessDrainQuiescentDirected,HarnessPauseHold,HarnessPauseHoldDirected,HarnessNoProbesAfter,HarnessFailAtomic,HarnessCmdMix
 func stubInstallServiceTraced(r *Router, s *Service) error {
 	err := r.installService(s)
 	vEmit(vEvent{kind: "swap", ok: err == nil})
